@@ -131,7 +131,10 @@ def check_chain(name, start, end, month_offset):
         msgs.append("chain %s %s..%s lists %d contracts with month codes %s, expected one per listing period ending in the span: %s"
                     % (name, start.date(), end.date(), len(cs), [c.symbol for c in cs][:6], want[:6]))
     # asked twice (every environment built on the chain asks again), then each contract on its own
-    for attempt in ("first", "second"):
+    for attempt in ("first", "second", "clock moved past the span"):
+        if attempt.startswith("clock"):
+            # the process-wide contract clock (advanced by any environment that ran before) must not change the list
+            K.AbstractContract.now = as_dt(cs[-1].expiry) + timedelta(days=400) if cs else datetime(2100, 1, 1)
         ev = chain.make_events()
         per = {}
         for e in ev:
@@ -149,6 +152,7 @@ def check_chain(name, start, end, month_offset):
             msgs.append("chain %s %s..%s (%s make_events call): %d events for %d contracts" % (name, start, end, attempt, len(ev), len(cs)))
         if msgs:
             break
+    K.AbstractContract.now = datetime.min
     for c in (cs[:2] + cs[-1:]) if not msgs else []:
         own = c.make_events()
         if not (len(own) == 1 and own[0].time == c.expiry and own[0].contract is c):
